@@ -174,3 +174,27 @@ Definition pc_members (fs : list field) : list pcm :=
 
 Definition pc_paddings (fs : list field) : list Z :=
   snd (pc_struct_layout (map (pc_member pc_size pc_align pc_kind) fs)).
+
+(* ---- raw C++ struct (prophyc/generators/cpp.py translate_struct over model.partition):
+   members are declared one after another inside their part, positive paddings become manual
+   padding members, an optional is a 4-byte flag, padding up to the value's own alignment and
+   the value; a new part starts after every member that model.partition splits at.
+   Per member: (part index from 0, offset in the part, offset of an optional's value or -1),
+   computed from the member records *before* the partial-alignment raise (sizes and the
+   optional's value alignment) and the paddings evaluate_struct_size assigned. ---- *)
+Definition pm_part_ends (m : pcm) : bool := (pm_kind m =? K_DYNAMIC) || pm_isdyn m.
+
+Fixpoint pc_raw_offsets (ms : list pcm) (ps : list Z) (part o : Z) : list (Z * Z * Z) :=
+  match ms with
+  | [] => []
+  | m :: r =>
+      (part, o, if pm_optional m then o + pm_align m else -1) ::
+      match r with
+      | [] => []
+      | _ => if pm_part_ends m then pc_raw_offsets r (tl ps) (part + 1) 0
+             else pc_raw_offsets r (tl ps) part (o + pm_size m + Z.max 0 (hd 0 ps))
+      end
+  end.
+
+Definition pc_raw_layout (fs : list field) : list (Z * Z * Z) :=
+  pc_raw_offsets (map (pc_member pc_size pc_align pc_kind) fs) (pc_paddings fs) 0 0.
